@@ -194,6 +194,35 @@ func cmdCheck(repo, prop, tier string) int {
 	}
 	dir, _ := os.MkdirTemp("", "govc-"+prop)
 	defer os.RemoveAll(dir)
+	// watchdog: a check always ends. Obligation generation has its own budget and every solver a CPU limit; if the whole
+	// check nevertheless does not finish (on the unchanged tree it takes well under a minute) the code is outside what the
+	// engine can decide, which is reported as a violation without a failing input, never as a pass.
+	limit := 15 * time.Minute
+	if thorough {
+		limit = 60 * time.Minute
+	}
+	go func() {
+		time.Sleep(limit)
+		rp := filepath.Join(verifDir, "replays", prop)
+		os.MkdirAll(rp, 0o755)
+		rf := filepath.Join(rp, "engine-watchdog.json")
+		doc := map[string]interface{}{"property": prop, "obligation": "engine/watchdog", "status": "unknown",
+			"solver_output": fmt.Sprintf("the check did not finish within %v (obligation generation, query rendering or solving did not terminate); no verdict on any obligation is reported", limit),
+			"replay": "no-failing-input-found"}
+		b, _ := json.MarshalIndent(doc, "", " ")
+		os.WriteFile(rf, b, 0o644)
+		level := "proof"
+		if prop == "C17" {
+			level = "other"
+		}
+		ev := map[string]interface{}{"property_id": prop, "tier": tier, "seed": seed, "level": level, "wall_s": time.Since(t0).Seconds(), "violations": 1,
+			"coverage": map[string]interface{}{"note": "watchdog fired: nothing was decided in this run"}, "assumptions": []string{}}
+		eb, _ := json.MarshalIndent(ev, "", " ")
+		os.WriteFile(filepath.Join(verifDir, "evidence", prop+".json"), eb, 0o644)
+		fmt.Printf("VIOLATION property=%s replay=%s obligation=engine/watchdog status=unknown the check did not finish within %v no-failing-input-found\n", prop, rf, limit)
+		os.RemoveAll(dir)
+		os.Exit(1)
+	}()
 
 	var results []*fnResult
 	var missing []string
